@@ -252,8 +252,105 @@ def rand_ops(rng, plat):
     return ops
 
 
+def far_offsets(ctx, rng):
+    """commands addressing their target beyond 4 GiB: block offsets are 32-bit numbers of 128-byte units (up to 512 GiB) and the
+    file command carries a 64-bit byte offset, so every position must be computed in 64 bits. The targets are sparse files; the
+    apply runs in a one-shot worker without the file-size rlimit of the long-lived one."""
+    plat = rng.choice([0, 1, 2])
+    pn = zp.PLATFORM_NAMES[plat]
+    B = 1 << 25     # first block whose byte offset needs more than 32 bits
+    oa = rng.choice([B, B + 1, B + rng.randrange(1 << 20), 2 * B + 5, 5 * B + rng.randrange(1000)])
+    oe = rng.choice([B, B + 7, 3 * B + rng.randrange(1000)])
+    od = oa + rng.choice([16, 64])
+    fo = rng.choice([1 << 32, (1 << 32) + 12345, (1 << 33) + rng.randrange(1 << 20), (1 << 36) + 1])
+    ops = [dict(op="FHDR", version=3), dict(op="T", platform=plat),
+           dict(op="A", main=0, sub=0, fid=0, off=oa, data=rng.randbytes(128 * rng.choice([1, 2, 5])), dele=rng.choice([0, 2])),
+           dict(op="E", main=0, sub=0, fid=1, off=oe, n=rng.choice([1, 3, 16])),
+           dict(op="D", main=0, sub=0, fid=0, off=od, n=rng.choice([1, 2])),
+           dict(op="A", main=4, sub=0x0100, fid=2, off=oa - 1, data=rng.randbytes(256), dele=1),
+           dict(op="FA", path="game/far.bin", offset=0, chunks=[(rng.randbytes(300), True)]),
+           dict(op="FA", path="game/far.bin", offset=fo, chunks=[(rng.randbytes(rng.choice([1, 500, 20000])), rng.random() < 0.5), (b"tail" * 40, False)]),
+           dict(op="H", fk=b"D", hk=b"V", main=0, sub=0, fid=0, data=rng.randbytes(1024)),
+           dict(op="EOF")]
+    rng.shuffle(ops[2:6])
+    wire = zp.serialise(ops)
+    pf = ctx.write("far.patch", wire)
+    root = ctx.path("far-target")
+    shutil.rmtree(root, ignore_errors=True)
+    os.makedirs(os.path.join(root, "sqpack", "ffxiv"))
+    os.makedirs(os.path.join(root, "sqpack", "ex1"))
+    model = zp.Model({}, ["sqpack/ffxiv", "sqpack/ex1"], sparse=True)
+    model.apply(ops)
+    ctx.case(digest(wire), True, ["far-offsets", "platform:%s" % pn], sample=dict(block_offsets=[oa, oe, od], file_offset=fo, ops=[o["op"] for o in ops]))
+    binary = build(ctx.variant)
+    try:
+        p = subprocess.run([binary, "--once", "zp.apply", root, pf], stdout=subprocess.PIPE, stderr=subprocess.PIPE, text=True, timeout=300, env=dict(os.environ, VERIF_NO_WARM="1"))
+    except subprocess.TimeoutExpired:
+        ctx.inconclusive("far-offset apply: watchdog")
+        shutil.rmtree(root, ignore_errors=True)
+        return
+    if '"outcome":"ok"' not in p.stdout:
+        if "No space left" in p.stdout + p.stderr or "File too large" in p.stdout + p.stderr:
+            ctx.inconclusive("far-offset apply: file system refused the sparse target")
+        else:
+            ctx.violation("apply", dict(sub="apply_failed", where="offsets>=4GiB"), dict(stdout=p.stdout[-400:], stderr=p.stderr[-300:], ops=[describe(o) for o in ops]), files=[pf])
+        shutil.rmtree(root, ignore_errors=True)
+        return
+    diffs = []
+    seen = set()
+    for r, ds, fs in os.walk(root):
+        for f in fs:
+            seen.add(os.path.relpath(os.path.join(r, f), root))
+    for rel in sorted(seen - set(model.files)):
+        diffs.append(("unexpected_file", rel))
+    for rel, mf in model.files.items():
+        path = os.path.join(root, rel)
+        if rel not in seen:
+            diffs.append(("missing_file", rel)); continue
+        size = os.path.getsize(path)
+        if size != mf.size:
+            diffs.append(("size", "%s: %d bytes, expected %d" % (rel, size, mf.size)))
+        with open(path, "rb") as fh:
+            ext = mf.extents()
+            for a, b in ext:
+                fh.seek(a)
+                if fh.read(b - a) != mf.read(a, b - a):
+                    diffs.append(("content", "%s: bytes [%d, %d) differ" % (rel, a, b)))
+            # everything that holds data on disk outside the modelled extents must be zero
+            fd = fh.fileno()
+            pos, budget = 0, 64 << 20
+            while pos < size and budget > 0:
+                try:
+                    d0 = os.lseek(fd, pos, os.SEEK_DATA)
+                except OSError:
+                    break
+                try:
+                    d1 = os.lseek(fd, d0, os.SEEK_HOLE)
+                except OSError:
+                    d1 = size
+                cur = d0
+                while cur < d1 and budget > 0:
+                    n = min(1 << 20, d1 - cur)
+                    os.lseek(fd, cur, os.SEEK_SET)
+                    got = os.read(fd, n)
+                    budget -= len(got)
+                    if got != mf.read(cur, len(got)):
+                        diffs.append(("content", "%s: data near %d differs from the model" % (rel, cur)))
+                        budget = 0
+                    cur += max(1, len(got))
+                pos = d1
+            if budget <= 0 and not diffs:
+                ctx.note("far-offset target holds more than 64 MiB of data on disk: zero check truncated")
+    if diffs:
+        ctx.violation("tree", dict(sub="tree_differs", diff="+".join(sorted({d[0] for d in diffs})), where="offsets>=4GiB"),
+                      dict(diffs=diffs[:6], ops=[describe(o) for o in ops]), files=[pf])
+    shutil.rmtree(root, ignore_errors=True)
+
+
 def shard(ctx):
     rng, P = ctx.rng, ctx.params
+    for _ in range(P.get("far", 1)):
+        far_offsets(ctx, rng)
     # bounded-exhaustive part, sharded
     idx = 0
     for plat in (0, 1, 2):
